@@ -84,7 +84,7 @@ Qed.
 
 Lemma bytes_of_bits_spec : forall fuel L, (length L < fuel)%nat ->
   exists pad, (pad < 8)%nat /\ bc_bits (bytes_of_bits fuel L) = L ++ repeat false pad /\
-              bytes_ok (bytes_of_bits fuel L).
+              bc_bytes_ok (bytes_of_bits fuel L).
 Proof.
   induction fuel as [|fuel IH]; intros L HL; [lia|].
   destruct L as [|b L].
@@ -108,7 +108,7 @@ Proof.
 Qed.
 
 Lemma pack_spec : forall w l,
-  exists pad, (pad < 8)%nat /\ bc_bits (pack w l) = sbits w l ++ repeat false pad /\ bytes_ok (pack w l).
+  exists pad, (pad < 8)%nat /\ bc_bits (pack w l) = sbits w l ++ repeat false pad /\ bc_bytes_ok (pack w l).
 Proof.
   intros w l. unfold pack. apply bytes_of_bits_spec. fold (sbits w l). lia.
 Qed.
@@ -168,14 +168,14 @@ Definition fp_count (st : fp_state) : N := (N.of_nat (length (fp_blocks st)) * s
 Definition full_blocks (first : Z) (blocks : list (Z * N * list N)) : Prop :=
   forall k ts cnt p, nth_error blocks k = Some (ts, cnt, p) ->
     ts = (first + Z.of_nat k * Z.of_N spd)%Z /\ cnt = spd /\
-    (8 * N.of_nat (length p) = spd * w)%N /\ bytes_ok p.
+    (8 * N.of_nat (length p) = spd * w)%N /\ bc_bytes_ok p.
 
-Record Inv (first : Z) (st : fp_state) : Prop := {
+Record fp_Inv (first : Z) (st : fp_state) : Prop := {
   inv_open : fp_open st = true;
   inv_first : fp_first st = first;
   inv_ec : (fp_ec st < spd)%N;
   inv_buf : (8 * N.of_nat (length (fp_buf st)) = spd * w)%N;
-  inv_ok : bytes_ok (fp_buf st);
+  inv_ok : bc_bytes_ok (fp_buf st);
   inv_ts : fp_ts st = (first + Z.of_nat (length (fp_blocks st)) * Z.of_N spd)%Z;
   inv_blocks : full_blocks first (fp_blocks st) }.
 
@@ -183,7 +183,7 @@ Lemma spd_lt32 : (spd < 4294967296)%N.
 Proof. assert (spd * 1 <= spd * w)%N by (apply N.mul_le_mono_l; lia). lia. Qed.
 
 Lemma full_blocks_snoc : forall first blocks p,
-  full_blocks first blocks -> (8 * N.of_nat (length p) = spd * w)%N -> bytes_ok p ->
+  full_blocks first blocks -> (8 * N.of_nat (length p) = spd * w)%N -> bc_bytes_ok p ->
   full_blocks first (blocks ++ [((first + Z.of_nat (length blocks) * Z.of_N spd)%Z, spd, p)]).
 Proof.
   intros first blocks p Hf Hl Hp k ts cnt q Hk.
@@ -210,9 +210,9 @@ Proof.
 Qed.
 
 Lemma wr_inner_spec : forall fuel st first src src_bit n,
-  Inv first st -> bytes_ok src -> (N.to_nat n <= fuel)%nat ->
+  fp_Inv first st -> bc_bytes_ok src -> (N.to_nat n <= fuel)%nat ->
   (src_bit + n * w <= 8 * N.of_nat (length src))%N ->
-  exists st', fp_wr_inner fuel w spd st src src_bit n = FP_ok st' /\ Inv first st' /\
+  exists st', fp_wr_inner fuel w spd st src src_bit n = FP_ok st' /\ fp_Inv first st' /\
     stream_bits st' = stream_bits st ++ firstn (N.to_nat (n * w)) (skipn (N.to_nat src_bit) (bc_bits src)) /\
     fp_count st' = (fp_count st + n)%N.
 Proof.
@@ -259,7 +259,7 @@ Proof.
         cbn [fp_open fp_first fp_ts fp_buf fp_blocks].
         set (st2 := {| fp_open := fp_open st; fp_first := fp_first st; fp_ts := (fp_ts st + Z.of_N spd)%Z;
                        fp_ec := 0; fp_buf := buf'; fp_blocks := fp_blocks st ++ [(fp_ts st, spd, buf')] |}).
-        assert (HI2 : Inv first st2).
+        assert (HI2 : fp_Inv first st2).
         { constructor; cbn [st2 fp_open fp_first fp_ts fp_ec fp_buf fp_blocks].
           - exact Hopen.
           - exact Hfirst.
@@ -279,7 +279,7 @@ Proof.
         -- rewrite Hc'. unfold fp_count. cbn [st2 fp_blocks fp_ec]. rewrite app_length. cbn [length]. lia.
       * set (st1 := {| fp_open := fp_open st; fp_first := fp_first st; fp_ts := fp_ts st;
                        fp_ec := fp_ec st + len; fp_buf := buf'; fp_blocks := fp_blocks st |}).
-        assert (HI1 : Inv first st1).
+        assert (HI1 : fp_Inv first st1).
         { constructor; cbn [st1 fp_open fp_first fp_ts fp_ec fp_buf fp_blocks].
           - exact Hopen.
           - exact Hfirst.
@@ -302,7 +302,7 @@ Definition blocks_wf (first : Z) (blocks : list (Z * N * list N)) : Prop :=
   forall k ts cnt p, nth_error blocks k = Some (ts, cnt, p) ->
     ts = (first + Z.of_nat k * Z.of_N spd)%Z /\ (0 < cnt <= spd)%N /\
     ((S k < length blocks)%nat -> cnt = spd) /\
-    N.of_nat (length p) = ((cnt * w + 7) / 8)%N /\ bytes_ok p /\
+    N.of_nat (length p) = ((cnt * w + 7) / 8)%N /\ bc_bytes_ok p /\
     Forall (fun b => b = false) (skipn (N.to_nat (cnt * w)) (bc_bits p)).
 
 Lemma Forall_false_skipn : forall (l : list bool) n,
@@ -335,12 +335,12 @@ Qed.
 (* wr_data with a partially filled block buffer: the payload is the first ceil(ec*w/8) bytes,
    its bits below ec*w are the buffer's, the rest of the last byte is zero *)
 Lemma wr_data_partial : forall st, (0 < fp_ec st < spd)%N ->
-  (8 * N.of_nat (length (fp_buf st)) = spd * w)%N -> bytes_ok (fp_buf st) ->
+  (8 * N.of_nat (length (fp_buf st)) = spd * w)%N -> bc_bytes_ok (fp_buf st) ->
   exists buf' p,
     fp_wr_data w spd st =
       FP_ok {| fp_open := fp_open st; fp_first := fp_first st; fp_ts := (fp_ts st + Z.of_N spd)%Z; fp_ec := 0;
                fp_buf := buf'; fp_blocks := fp_blocks st ++ [(fp_ts st, fp_ec st, p)] |} /\
-    N.of_nat (length p) = ((fp_ec st * w + 7) / 8)%N /\ bytes_ok p /\
+    N.of_nat (length p) = ((fp_ec st * w + 7) / 8)%N /\ bc_bytes_ok p /\
     (forall i, nth i (bc_bits p) false =
                if (i <? N.to_nat (fp_ec st * w))%nat then nth i (bc_bits (fp_buf st)) false else false).
 Proof.
@@ -402,7 +402,7 @@ Proof.
   unfold fp_total in *. cbn [fold_right length]. rewrite (IH _ Hr). lia.
 Qed.
 
-Lemma close_spec : forall st first, Inv first st ->
+Lemma close_spec : forall st first, fp_Inv first st ->
   exists st', fp_wr_data w spd st = FP_ok st' /\
     flat_map blk_bits (fp_blocks st') = stream_bits st /\
     blocks_wf first (fp_blocks st') /\ fp_total (fp_blocks st') = fp_count st /\
@@ -446,15 +446,15 @@ Qed.
 (* ---------------- gap fill ---------------- *)
 Section Gap.
 Variables (fill : list N) (fillv : N) (B : N).
-Hypothesis Hfill_ok : bytes_ok fill.
+Hypothesis Hfill_ok : bc_bytes_ok fill.
 Hypothesis HB : (B < 4294967296)%N.
 Hypothesis Hfill_len : (B * w <= 8 * N.of_nat (length fill))%N.
 Hypothesis Hfill_bits : forall n, (n <= B)%N ->
   firstn (N.to_nat (n * w)) (bc_bits fill) = sbits w (repeat fillv (N.to_nat n)).
 
 Lemma gap_loop_spec : forall fuel st first skip bufsz,
-  Inv first st -> (1 <= bufsz <= B)%N -> (N.to_nat skip <= fuel)%nat ->
-  exists st', fp_gap_loop fuel w spd st fill skip bufsz = FP_ok st' /\ Inv first st' /\
+  fp_Inv first st -> (1 <= bufsz <= B)%N -> (N.to_nat skip <= fuel)%nat ->
+  exists st', fp_gap_loop fuel w spd st fill skip bufsz = FP_ok st' /\ fp_Inv first st' /\
     stream_bits st' = stream_bits st ++ sbits w (repeat fillv (N.to_nat skip)) /\
     fp_count st' = (fp_count st + skip)%N.
 Proof.
@@ -489,7 +489,7 @@ Definition fp_bufsz (dt : N) : N :=
 (* what the proofs need to know about a data type: its width and its gap-fill buffer *)
 Definition dt_fill_ok (dt : N) : Prop :=
   let w := dt_bits dt in
-  (0 < w)%N /\ (1 <= fp_bufsz dt < 4294967296)%N /\ bytes_ok (fp_fill_buf dt) /\
+  (0 < w)%N /\ (1 <= fp_bufsz dt < 4294967296)%N /\ bc_bytes_ok (fp_fill_buf dt) /\
   (fp_bufsz dt * w <= 8 * N.of_nat (length (fp_fill_buf dt)))%N /\
   forall n, (n <= fp_bufsz dt)%N ->
     firstn (N.to_nat (n * w)) (bc_bits (fp_fill_buf dt)) = sbits w (repeat (fill_value dt) (N.to_nat n)).
@@ -497,12 +497,12 @@ Definition dt_fill_ok (dt : N) : Prop :=
 Definition spd_ok (w spd : N) : Prop :=
   (0 < spd)%N /\ ((spd * w) mod 8 = 0)%N /\ (spd * w + 7 < 4294967296)%N.
 
-Definition Rel (dt spd : N) (st : fp_state) (s : sigstate) : Prop :=
+Definition fp_Rel (dt spd : N) (st : fp_state) (s : sigstate) : Prop :=
   sg_dtype (ss_def s) = dt /\
   match ss_first s with
   | None => fp_open st = false /\ fp_blocks st = [] /\ ss_samples s = [] /\
-            (8 * N.of_nat (length (fp_buf st)) = spd * dt_bits dt)%N /\ bytes_ok (fp_buf st)
-  | Some first => Inv (dt_bits dt) spd first st /\
+            (8 * N.of_nat (length (fp_buf st)) = spd * dt_bits dt)%N /\ bc_bytes_ok (fp_buf st)
+  | Some first => fp_Inv (dt_bits dt) spd first st /\
                   stream_bits (dt_bits dt) st = sbits (dt_bits dt) (ss_samples s) /\
                   fp_count spd st = N.of_nat (length (ss_samples s))
   end.
@@ -521,15 +521,15 @@ Proof.
   rewrite Hy, Hz. cbn [firstn skipn]. apply app_nil_r.
 Qed.
 
-Lemma Inv_next : forall w spd first st, Inv w spd first st ->
+Lemma fp_Inv_next : forall w spd first st, fp_Inv w spd first st ->
   fp_next st = (first + Z.of_N (fp_count spd st))%Z.
 Proof. intros w spd first st HI. unfold fp_next, fp_count. rewrite (inv_ts _ _ _ _ HI). lia. Qed.
 
 Lemma wr_call_spec : forall dt spd st s sid samples,
-  dt_fill_ok dt -> spd_ok (dt_bits dt) spd -> Rel dt spd st s ->
+  dt_fill_ok dt -> spd_ok (dt_bits dt) spd -> fp_Rel dt spd st s ->
   (N.of_nat (length samples) < 4294967296)%N ->
   exists st', fp_wr_call dt spd st sid (pack (dt_bits dt) samples) (N.of_nat (length samples)) = FP_ok st' /\
-              Rel dt spd st' (fsr_write s sid samples).
+              fp_Rel dt spd st' (fsr_write s sid samples).
 Proof.
   intros dt spd st s sid samples (Hw & Hbz & Hfok & Hflen & Hfbits) (Hspd & Hmul & Hbnd) (Hdt & HR) Hn32.
   set (w := dt_bits dt) in *.
@@ -553,7 +553,7 @@ Proof.
   - (* already open *)
     destruct HR as (HI & Hstream & Hcount).
     rewrite (inv_open _ _ _ _ HI).
-    rewrite (Inv_next _ _ _ _ HI). rewrite Hcount.
+    rewrite (fp_Inv_next _ _ _ _ HI). rewrite Hcount.
     replace (Z.of_N (N.of_nat (length (ss_samples s)))) with (Z.of_nat (length (ss_samples s))) by lia.
     set (next := (first + Z.of_nat (length (ss_samples s)))%Z).
     destruct (Z.eqb_spec sid next) as [Heq|Hne].
@@ -613,7 +613,7 @@ Proof.
     destruct HR as (Hopen & Hblk & Hsam & Hbuf & Hbok).
     rewrite Hopen.
     set (st1 := {| fp_open := true; fp_first := sid; fp_ts := sid; fp_ec := 0; fp_buf := fp_buf st; fp_blocks := fp_blocks st |}).
-    assert (HI1 : Inv w spd sid st1).
+    assert (HI1 : fp_Inv w spd sid st1).
     { constructor; cbn [st1 fp_open fp_first fp_ts fp_ec fp_buf fp_blocks]; try assumption; try reflexivity.
       - rewrite Hblk. cbn [length]. lia.
       - rewrite Hblk. intros k ts cnt p Hk. destruct k; discriminate. }
@@ -659,10 +659,10 @@ Proof.
   rewrite firstn_app_len, IH by lia. reflexivity.
 Qed.
 
-Lemma bytes_ok_repeat : forall v m, (v < 256)%N -> bytes_ok (repeat v m).
+Lemma bytes_ok_repeat : forall v m, (v < 256)%N -> bc_bytes_ok (repeat v m).
 Proof. intros v m Hv. apply Forall_forall. intros x Hx. apply repeat_spec in Hx. subst. exact Hv. Qed.
 
-Lemma bytes_ok_concat_repeat : forall pat k, bytes_ok pat -> bytes_ok (concat (repeat pat k)).
+Lemma bytes_ok_concat_repeat : forall pat k, bc_bytes_ok pat -> bc_bytes_ok (concat (repeat pat k)).
 Proof.
   intros pat k Hp. induction k; [constructor|]. cbn [repeat concat]. apply Forall_app. split; assumption.
 Qed.
@@ -689,7 +689,7 @@ Qed.
 
 Lemma dt_fill_ok_float : forall dt pat (k W : N),
   dt_bits dt = W -> (0 < W)%N -> N.of_nat (length pat) = (W / 8)%N -> (W mod 8 = 0)%N ->
-  (1 <= k < 4294967296)%N -> bytes_ok pat ->
+  (1 <= k < 4294967296)%N -> bc_bytes_ok pat ->
   fp_bufsz dt = k -> fp_fill_buf dt = concat (repeat pat (N.to_nat k)) ->
   bc_bits pat = bits_of (N.to_nat W) (fill_value dt) ->
   dt_fill_ok dt.
@@ -723,10 +723,10 @@ Qed.
 (* any list of calls                                                   *)
 (* ------------------------------------------------------------------ *)
 Lemma run_spec : forall dt spd calls st s,
-  dt_fill_ok dt -> spd_ok (dt_bits dt) spd -> Rel dt spd st s ->
+  dt_fill_ok dt -> spd_ok (dt_bits dt) spd -> fp_Rel dt spd st s ->
   Forall (fun c => (N.of_nat (length (snd c)) < 4294967296)%N) calls ->
   exists st', fp_run dt spd st calls = FP_ok st' /\
-              Rel dt spd st' (fold_left (fun s c => fsr_write s (fst c) (snd c)) calls s).
+              fp_Rel dt spd st' (fold_left (fun s c => fsr_write s (fst c) (snd c)) calls s).
 Proof.
   intros dt spd calls. induction calls as [|[sid samples] r IH]; intros st s Hdt Hspd HR Hall.
   - exists st. split; [reflexivity|exact HR].
@@ -735,9 +735,9 @@ Proof.
     cbn [fp_run fold_left fst snd]. rewrite Hrun1. apply IH; assumption.
 Qed.
 
-Lemma Rel_init : forall dt spd buf0 d, sg_dtype d = dt ->
-  (8 * N.of_nat (length buf0) = spd * dt_bits dt)%N -> bytes_ok buf0 ->
-  Rel dt spd (fp_init buf0) (new_sig d).
+Lemma fp_Rel_init : forall dt spd buf0 d, sg_dtype d = dt ->
+  (8 * N.of_nat (length buf0) = spd * dt_bits dt)%N -> bc_bytes_ok buf0 ->
+  fp_Rel dt spd (fp_init buf0) (new_sig d).
 Proof. intros. split; [assumption|]. cbn. auto. Qed.
 
 Lemma blocks_stream_lemma : forall dt spd buf0 d calls,
@@ -762,7 +762,7 @@ Proof.
   intros dt spd buf0 d calls Hin Hd Hspd Hmul Hbnd Hbuf Hok Hcalls w s.
   pose proof (dt_fill_ok_all dt Hin) as Hfo.
   destruct (run_spec dt spd calls (fp_init buf0) (new_sig d) Hfo (conj Hspd (conj Hmul Hbnd))
-              (Rel_init dt spd buf0 d Hd Hbuf Hok) Hcalls) as (st1 & Hrun & (Hdt & HR)).
+              (fp_Rel_init dt spd buf0 d Hd Hbuf Hok) Hcalls) as (st1 & Hrun & (Hdt & HR)).
   fold s in HR. unfold fp_write_all. rewrite Hrun. unfold fp_close. fold w in HR |- *.
   destruct (ss_first s) as [first|] eqn:Efirst.
   - destruct HR as (HI & Hstream & Hcount).
@@ -803,7 +803,7 @@ Fixpoint wf_rec (first : Z) (blocks : list (Z * N * list N)) (stream : list N) :
   | [] => stream = []
   | (ts, cnt, p) :: r =>
     ts = first /\ (0 < cnt <= spd)%N /\ (r <> [] -> cnt = spd) /\
-    (cnt * w <= 8 * N.of_nat (length p))%N /\ bytes_ok p /\
+    (cnt * w <= 8 * N.of_nat (length p))%N /\ bc_bytes_ok p /\
     (N.to_nat cnt <= length stream)%nat /\
     firstn (N.to_nat (cnt * w)) (bc_bits p) = sbits w (firstn (N.to_nat cnt) stream) /\
     wf_rec (first + Z.of_N spd)%Z r (skipn (N.to_nat cnt) stream)
@@ -813,7 +813,7 @@ Definition blocks_shape (first : Z) (blocks : list (Z * N * list N)) : Prop :=
   forall k ts cnt p, nth_error blocks k = Some (ts, cnt, p) ->
     ts = (first + Z.of_nat k * Z.of_N spd)%Z /\ (0 < cnt <= spd)%N /\
     ((S k < length blocks)%nat -> cnt = spd) /\
-    N.of_nat (length p) = ((cnt * w + 7) / 8)%N /\ bytes_ok p.
+    N.of_nat (length p) = ((cnt * w + 7) / 8)%N /\ bc_bytes_ok p.
 
 Lemma wf_rec_of_shape : forall blocks first stream,
   blocks_shape first blocks -> flat_map (blk_bits w) blocks = sbits w stream ->
@@ -853,7 +853,7 @@ Lemma find_block_spec : forall blocks first stream s,
   exists ts cnt p o,
     fp_find_block blocks (first + Z.of_nat s)%Z = Some (ts, cnt, p) /\
     (first + Z.of_nat s = ts + Z.of_nat o)%Z /\ (o < N.to_nat cnt)%nat /\ (o <= s)%nat /\
-    (cnt * w <= 8 * N.of_nat (length p))%N /\ bytes_ok p /\
+    (cnt * w <= 8 * N.of_nat (length p))%N /\ bc_bytes_ok p /\
     (s - o + N.to_nat cnt <= length stream)%nat /\
     firstn (N.to_nat (cnt * w)) (bc_bits p) = sbits w (firstn (N.to_nat cnt) (skipn (s - o) stream)).
 Proof.
@@ -888,7 +888,7 @@ Lemma rd_loop_spec : forall blocks first stream, wf_rec first blocks stream ->
   (s + len <= length stream)%nat -> (len <= fuel)%nat ->
   (dst_bit + N.of_nat len * w <= 8 * N.of_nat (length dst))%N ->
   exists out, fp_rd_loop fuel w blocks (first + Z.of_nat s)%Z (Z.of_nat len) dst dst_bit = RD_ok out /\
-    length out = length dst /\ (bytes_ok dst -> bytes_ok out) /\
+    length out = length dst /\ (bc_bytes_ok dst -> bc_bytes_ok out) /\
     bc_bits out = firstn (N.to_nat dst_bit) (bc_bits dst) ++ sbits w (firstn len (skipn s stream))
                   ++ skipn (N.to_nat (dst_bit + N.of_nat len * w)) (bc_bits dst).
 Proof.
